@@ -101,7 +101,15 @@ func vpC06_O2() {
 	vpAssume(pu.C.Sign() != 0)
 	side := vpChoose("side", 2)
 	if side == 0 {
-		switch vpChoose("issuerdev", 6) {
+		switch vpChoose("issuerdev", 8) {
+		case 6: // the commitment message lacks U (a JSON document without the key): the issuer refuses, no panic
+			r.commitMsg.U = nil
+			vpAssert("issuer refuses a commitment message without U or nonce", r.issue() != nil && r.sigMsg == nil)
+			return
+		case 7: // ... or the holder's nonce
+			r.commitMsg.Nonce2 = nil
+			vpAssert("issuer refuses a commitment message without U or nonce", r.issue() != nil && r.sigMsg == nil)
+			return
 		case 0:
 			pu.C = vpAddTo(pu.C, d)
 		case 1:
@@ -247,7 +255,17 @@ func vpC06_O4() {
 	sigMsg, err := NewIssuer(sk, pk, ctx).IssueSignature(commitMsg.U, attrs, wit, commitMsg.Nonce2, nil)
 	vpAssume(err == nil)
 	w := sigMsg.NonRevocationWitness
-	switch vpChoose("witdev", 7) {
+	switch vpChoose("witdev", 10) {
+	case 7: // U altered in transit
+		d := vpBigBits("du", 64)
+		vpAssume(d.Sign() > 0)
+		sigMsg.NonRevocationWitness = &revocation.Witness{U: new(big.Int).Add(w.U, d), E: w.E, SignedAccumulator: w.SignedAccumulator}
+	case 8: // U of another witness against the same accumulator
+		other, err := revocation.RandomWitness(sk, acc)
+		vpAssume(err == nil && other.E.Cmp(w.E) != 0)
+		sigMsg.NonRevocationWitness = &revocation.Witness{U: other.U, E: w.E, SignedAccumulator: w.SignedAccumulator}
+	case 9: // E replaced by the value of an ordinary attribute of the same credential
+		sigMsg.NonRevocationWitness = &revocation.Witness{U: w.U, E: attrs[0], SignedAccumulator: w.SignedAccumulator}
 	case 0:
 		sigMsg.NonRevocationWitness = &revocation.Witness{}
 	case 1:
